@@ -41,9 +41,9 @@ class Project:
         return self._classes[key]
 
 
-HEADER_OF = {'GeographicErr': 'Constants', 'PolygonAreaT': 'PolygonArea', 'DAuxLatitude': 'DAuxLatitude'}
+HEADER_OF = {'GeographicErr': 'Constants', 'PolygonAreaT': 'PolygonArea', 'DAuxLatitude': 'DAuxLatitude', 'coeff': 'SphericalEngine'}
 SOURCE_OF.update({'PolygonAreaT': 'PolygonArea'}) if False else None
-SOURCE_OF = {'PolygonAreaT': 'PolygonArea'}
+SOURCE_OF = {'PolygonAreaT': 'PolygonArea', 'coeff': 'SphericalEngine'}
 
 
 def header_of(cls):
